@@ -67,6 +67,67 @@ Theorem C11_bool_is_support_of_real_sum_products :
 Proof. exact supp_sum_products_nonrec. Qed.
 Print Assumptions C11_bool_is_support_of_real_sum_products.
 
+(** ** Magnitudes: components whose values are tiny or huge relative to [tol]
+    (scalar systems x = F(x) = c x^2 + a x + b, a, b, c >= 0; Model/Magnitude.v).
+    An accepted certificate [lo, hi] encloses the least solution: [lo] is below every nonnegative
+    pre-fixed point, [hi] above every Kleene iterate. *)
+Require Import Fggs.Model.Magnitude Fggs.Proofs.Magnitude_proofs.
+From Coq Require Import QArith.
+
+Theorem C11_certificate_encloses_least_solution :
+  forall a b c lo hi, cert_ok a b c lo hi = true ->
+    (forall y, (0 <= y)%Q -> (qF a b c y <= y)%Q -> (lo <= y)%Q) /\ (forall k, (qiter a b c k <= hi)%Q).
+Proof. exact cert_ok_encloses. Qed.
+Print Assumptions C11_certificate_encloses_least_solution.
+
+(** the stopping test F(x0) - x0 <= tol at an iterate x0 below a solution xs with F'(xs) <= L < 1:
+    newton, which returns at least F(x0), is within tol*L/(1-L) of xs ... *)
+Theorem C11_newton_stop_bound :
+  forall a b c : Q, (0 <= a)%Q -> (0 <= c)%Q ->
+  forall xs x0 L tol, (xs == qF a b c xs)%Q -> (0 <= x0)%Q -> (x0 <= xs)%Q -> (qL a c xs <= L)%Q -> (L < 1)%Q ->
+    (qF a b c x0 - x0 <= tol)%Q -> (xs - qF a b c x0 <= tol * L / (1 - L))%Q.
+Proof. exact newton_stop_bound. Qed.
+Print Assumptions C11_newton_stop_bound.
+
+(** ... fixed-point, which returns x0, within tol/(1-L) ... *)
+Theorem C11_fixed_point_stop_bound_quadratic :
+  forall a b c : Q, (0 <= c)%Q ->
+  forall xs x0 L tol, (xs == qF a b c xs)%Q -> (x0 <= xs)%Q -> (qL a c xs <= L)%Q -> (L < 1)%Q ->
+    (qF a b c x0 - x0 <= tol)%Q -> (xs - x0 <= tol / (1 - L))%Q.
+Proof. exact fixed_point_stop_bound. Qed.
+Print Assumptions C11_fixed_point_stop_bound_quadratic.
+
+(** ... and the base weight b = F(0), which every method returns at least (every Kleene iterate
+    after the first is >= b), is the solution up to the relative error L whatever tol is *)
+Theorem C11_base_weight_relative_bound :
+  forall a b c : Q, (0 <= c)%Q ->
+  forall xs x0 L, (xs == qF a b c xs)%Q -> (0 <= x0)%Q -> (x0 <= xs)%Q -> (qL a c xs <= L)%Q ->
+    ((1 - L) * xs <= b)%Q.
+Proof. exact base_relative_bound. Qed.
+Print Assumptions C11_base_weight_relative_bound.
+
+Theorem C11_base_weight_below_iterates :
+  forall a b c : Q, (0 <= a)%Q -> (0 <= b)%Q -> (0 <= c)%Q -> forall k, (b <= qiter a b c (S k))%Q.
+Proof. exact base_le_iter. Qed.
+Print Assumptions C11_base_weight_below_iterates.
+
+(** the check function rejects (verdict 1) every value below the base weight -- in particular 0 for
+    a positive base weight -- whatever the method and tol; an accepted value lies in the interval *)
+Theorem C11_value_below_base_weight_rejected :
+  forall kind tol eps epsg wg a b c lo hi g mb ox ogb ogg,
+    cert_ok a b c lo hi = true -> (0 <= g)%Q -> (0 <= mb)%Q -> (eps < 1)%Q -> (ox < b * (1 - eps))%Q ->
+    elem_check kind tol eps epsg wg ((a, b, c), (lo, hi), (g, mb), (ox, ogb, ogg)) = 1%nat.
+Proof. exact elem_check_rejects_below_base. Qed.
+Print Assumptions C11_value_below_base_weight_rejected.
+
+Theorem C11_magnitude_check_sound :
+  forall kind tol eps epsg wg a b c lo hi g mb ox ogb ogg,
+    elem_check kind tol eps epsg wg ((a, b, c), (lo, hi), (g, mb), (ox, ogb, ogg)) = 0%nat ->
+    cert_ok a b c lo hi = true /\
+    (xmin kind tol a b c lo hi * (1 - eps) <= ox)%Q /\ (ox <= hi * (1 + eps))%Q.
+Proof. exact elem_check_sound. Qed.
+Print Assumptions C11_magnitude_check_sound.
+
 (** ** The meaning of the option [tol] (fixed-point method): an absolute stopping distance.
     For the scalar system x = a x + c (grammar X -> c | a X) with 0 <= a < 1, the iterate at
     which the loop of fixed_point stops (distance to the next iterate <= tol) lies within
